@@ -51,7 +51,8 @@ Section C20.
       lookup_h V key (exp_meth_handlers recv) args = Some r -> hwf V r = true.
   Proof. exact (meth_wfe V). Qed.
 
-  (* the closure of all of it: a value built by any nesting of modelled constructors, expression methods, entry points,
+  (* the closure of all of it: a value built by any nesting of modelled constructors, expression methods, CASE chains
+     (Case().When().Then()...[Else()].End(), whose handlers compose to the value - case_chain_result), entry points,
      statement-builder and WITH-builder methods - every expression argument being built the same way, hence never a nil
      interface - renders without panic under every option combination and supplied map *)
   Theorem C20_built_no_panic :
